@@ -64,9 +64,12 @@ def run_impl(att, delay, rf, dnr, script, spelling=list, dynamic_name=False, ent
     saved = R.sleep
     R.sleep = lambda d: log.append(d)
     try:
-        rc = R.RetryingClient(inner, attempts=att, retry_delay=delay,
-                              retry_for=None if rf is None else spelling(cl[t] for t in rf),
-                              do_not_retry_for=None if dnr is None else spelling(cl[t] for t in dnr))
+        try:
+            rc = R.RetryingClient(inner, attempts=att, retry_delay=delay,
+                                  retry_for=None if rf is None else spelling(cl[t] for t in rf),
+                                  do_not_retry_for=None if dnr is None else spelling(cl[t] for t in dnr))
+        except Exception as e:  # noqa -- every configuration this harness builds is legal: a refusal is reported, not a crash
+            return ("e", "construction refused: %s: %s" % (type(e).__name__, str(e)[:80])), log
         if dynamic_name:
             inner.m = method        # appears after dir(client) was recorded: callable, but not in _client_dir
         try:
